@@ -1,13 +1,14 @@
 ----------------------------- MODULE Gen_UiSpans -----------------------------
 (***************************************************************************)
-(* C17 generator: every sequence of 1..MaxLen lexeme classes (number,       *)
+(* C17 generator: every sequence of 1..MaxLen lexeme classes (number, based  *)
+(* literal,                                                                 *)
 (* operator, ASCII word, words of 2- and 3-byte letters, a 4-byte symbol,   *)
 (* a word whose case mapping changes its byte length), optionally followed  *)
 (* by a comment.  The driver picks concrete strings and knows their spans.  *)
 (***************************************************************************)
 EXTENDS Sequences, Naturals, Json, TLC
 CONSTANT MaxLen
-Classes == {"num", "frac", "op", "lp_rp", "word", "mb2", "mb3", "sym4", "casey", "assign", "zone", "month"}
+Classes == {"num", "frac", "based", "op", "lp_rp", "word", "mb2", "mb3", "sym4", "casey", "assign", "zone", "month"}
 VARIABLE s
 Init == s = [seq |-> <<>>, comment |-> FALSE]
 Next == \/ (Len(s.seq) < MaxLen /\ ~s.comment /\ \E c \in Classes : s' = [s EXCEPT !.seq = Append(@, c)])
